@@ -107,27 +107,60 @@ fn err_facts_reworded(text: &str) -> (String, u64, u64) {
         }
     }
     // a quoted single character
-    let quoted: Option<u64> = {
-        let cs: Vec<char> = text.chars().collect();
-        let mut q = None;
+    // the offending character: the first quoted character after "found" / "got" / "unexpected" / "invalid" / "saw"; failing
+    // that, the first quoted character that does not follow "expected" / "wanted" (that one is a hint about what should
+    // have come)
+    fn first_quoted(t: &str) -> Option<u64> {
+        let cs: Vec<char> = t.chars().collect();
         for i in 0..cs.len().saturating_sub(2) {
             if (cs[i] == '`' || cs[i] == '\'' || cs[i] == '"') && cs[i + 2] == cs[i] {
-                q = Some(cs[i + 1] as u32 as u64);
-                break;
+                return Some(cs[i + 1] as u32 as u64);
             }
         }
-        q
+        None
+    }
+    let after = ["found", "got", "unexpected", "invalid", "saw"].iter().filter_map(|k| low.find(k)).min();
+    // "expect…" as a word of its own, not the tail of "unexpected"
+    let hint = {
+        let mut best: Option<usize> = low.find("want");
+        let mut from = 0;
+        while let Some(i) = low[from..].find("expect") {
+            let at = from + i;
+            if !(at >= 2 && &low[at - 2..at] == "un") {
+                best = Some(best.map_or(at, |b| b.min(at)));
+                break;
+            }
+            from = at + 6;
+        }
+        best
     };
-    if low.contains("conversion") || low.contains("convert") {
+    let quoted: Option<u64> = match (after, hint) {
+        // "expected `)` but found `2`": the offending one comes after the later keyword
+        (Some(a), Some(h)) if a > h => first_quoted(&text[a.min(text.len())..]),
+        (Some(a), Some(h)) => first_quoted(&text[a.min(text.len())..h.min(text.len())]),
+        (Some(a), None) => first_quoted(&text[a.min(text.len())..]),
+        (None, Some(h)) => first_quoted(&text[..h.min(text.len())]),
+        (None, None) => first_quoted(text),
+    };
+    // a byte written as 0x78
+    let hexbyte: Option<u64> = low.find("0x").and_then(|i| {
+        let h: String = low[i + 2..].chars().take_while(|c| c.is_ascii_hexdigit()).collect();
+        if h.is_empty() || h.len() > 2 { None } else { u64::from_str_radix(&h, 16).ok() }
+    });
+    let words: Vec<&str> = low.split(|c: char| !c.is_ascii_alphabetic()).collect();
+    let has = |ws: &[&str]| words.iter().any(|w| ws.contains(w));
+    let syntaxish = has(&["char", "character", "byte", "unexpected", "invalid", "found", "got"]);
+    if (low.contains("conversion") || low.contains("convert")) && nums.is_empty() {
         ("convert".into(), 0, 0)
-    } else if low.split(|c: char| !c.is_ascii_alphabetic()).any(|w| matches!(w, "end" | "ended" | "ends" | "eof" | "incomplete" | "truncated")) {
+    } else if let (Some(c), true) = (quoted.or(hexbyte), syntaxish) {
+        // an offending character is named: that is what the error is about, whatever else the sentence mentions
+        ("char".into(), c, 0)
+    } else if has(&["end", "ended", "ends", "eof", "incomplete", "truncated", "premature", "empty"]) || low.contains("ran out") {
         ("end".into(), 0, 0)
     } else if low.contains("buffer") {
         ("buffer".into(), 0, 0)
     } else if low.contains("source") {
         ("source".into(), 0, 0)
-    } else if let (Some(c), true) = (quoted, low.contains("char") || low.contains("unexpected") || low.contains("invalid") || low.contains("found")) {
-        ("char".into(), c, 0)
     } else if nums.len() == 2 {
         let (cap, need) = match (nums[0].1, nums[1].1) {
             (true, false) => (nums[1].0, nums[0].0),
